@@ -101,6 +101,9 @@ def r3_retry_and_ack(ctx):
                 if not host_known:
                     okk = not sm and p.exit[0] == "return"
                     what = "unknown host (shutdown): nothing sent, no error"
+                elif sm and any(vkey(e.data.get("recv_value")) != "sockH" for e in sm):
+                    okk = False
+                    what = f"the retry goes out on the recorded host's own socket (it is sent on {[vkey(e.data.get('recv_value'))[:40] for e in sm]})"
                 elif remaining == 1:
                     okk = len(sm) == 1 and p.exit[0] == "raise"
                     what = "budget exhausted: raise (never drop silently)"
